@@ -326,3 +326,226 @@ class TypeConversionSpec(OpExecSpec):
 
     def parse_native(self, inst, shape, toks):
         return {"err": toks[0] == "err", "out": parse_ints(toks[1], inst["U"])}
+
+
+# ----------------------------------------------------------------------------------------------------
+# C04.f  group compaction after array aggregation: Exists, Compact, NonzeroCompact(+Nullable), NonzeroIndices
+# ----------------------------------------------------------------------------------------------------
+def selected_rows_post(sel, data, out, what="row"):
+    """out must be exactly the rows of `data` whose sel[i] holds, in order (out has a concrete length per path)"""
+    conds = []
+    n = len(data)
+    k = I("usize", 0)
+    for i in range(n):
+        for pos in range(len(out) + 1):
+            here = band(sel[i], binop("Eq", k, I("usize", pos)))
+            if pos < len(out):
+                conds.append((f"{what} {i}, if kept as output row {pos}, is copied unchanged", implies(here, binop("Eq", out[pos], data[i]))))
+            else:
+                conds.append((f"{what} {i}: every kept row is in the output", bnot(here)))
+        k = ite(sel[i], binop("Add", k, I("usize", 1)), k)
+    conds.append(("the output has exactly one row per kept input row", binop("Eq", k, I("usize", len(out)))))
+    return conds
+
+
+class ExistsSpec(OpExecSpec):
+    """Exists<u8>: exists[k] = 1 exactly for the group keys that occur (array sized max_index + 1)"""
+
+    def instantiations(self, tier):
+        return [{"T": "u8", "nat": "op_exists_u8"}] + ([] if tier == "quick" else [{"T": "u16", "nat": "op_exists_u16"}])
+
+    def op_type(self, inst):
+        return f"Exists<{inst['T']}>"
+
+    def shapes(self, tier, inst):
+        return [(0, 1), (2, 2), (3, 3)] if tier == "quick" else [(0, 0), (1, 1), (2, 2), (3, 3), (4, 2)]
+
+    def sym_inputs(self, inst, shape):
+        n, maxg = shape
+        keys = [sym(inst["T"], f"k{i}") for i in range(n)]
+        return {"keys": keys}, [z3.ULE(k.v, z3.BitVecVal(maxg, INT_W[inst["T"]])) for k in keys]
+
+    def op_fields(self, ctx, inst):
+        return {"input": bufref(ctx, 0), "max_index": bufref(ctx, 1), "output": bufref(ctx, 2)}
+
+    def buffers(self, inst, shape, inp):
+        n, maxg = shape
+        b = Buffers()
+        b.vec(0, inp["keys"], inst["T"])
+        b.scalar(1, I("i64", maxg))
+        b.vec(2, [], "u8")
+        return b
+
+    def view(self, inst, shape, value, state):
+        return {"err": self.result_is_err(value), "out": self.out_vec(state, 2)}
+
+    def post(self, inst, shape, inp, value, state=None):
+        v = self.view(inst, shape, value, state) if state is not None else value
+        n, maxg = shape
+        conds = [("never fails", B(not v["err"])), ("one flag per possible group", B(len(v["out"]) == maxg + 1))]
+        if len(v["out"]) == maxg + 1:
+            for g in range(maxg + 1):
+                occurs = B(False)
+                for k in inp["keys"]:
+                    occurs = bor(occurs, binop("Eq", k, I(inst["T"], g)))
+                conds.append((f"group {g}: flag set exactly when the key occurs", binop("Eq", binop("Ne", v["out"][g], I("u8", 0)), occurs)))
+        return conds
+
+    def random_inputs(self, rng, inst, shape):
+        n, maxg = shape
+        return {"keys": [I(inst["T"], rng.randint(0, maxg)) for _ in range(n)]}
+
+    def native(self, inst, shape, inp):
+        if inp is None:
+            return (inst["nat"], [])
+        return (inst["nat"], [fmt_ints(inp["keys"]), shape[1]])
+
+    def parse_native(self, inst, shape, toks):
+        return {"err": toks[0] == "err", "out": parse_ints(toks[1], "u8")}
+
+
+class CompactSpec(OpExecSpec):
+    """Compact<T,U> / NonzeroCompact<T> / NonzeroCompactNullable<T>: in-place removal of the accumulator slots of groups
+    that do not exist; survivors keep their order and values"""
+
+    def instantiations(self, tier):
+        return [{"kind": "compact", "T": "i64", "U": "u8", "nat": "op_compact_i64_u8"},
+                {"kind": "nonzero", "T": "u32", "nat": "op_nonzero_compact_u32"},
+                {"kind": "nonzero_nullable", "T": "i64", "nat": "op_nonzero_compact_nullable_i64"}]
+
+    def op_type(self, inst):
+        if inst["kind"] == "compact":
+            return f"Compact<{inst['T']}, {inst['U']}>"
+        return ("NonzeroCompact" if inst["kind"] == "nonzero" else "NonzeroCompactNullable") + f"<{inst['T']}>"
+
+    def shapes(self, tier, inst):
+        return [0, 1, 3] if tier == "quick" else [0, 1, 2, 3, 4, 9]
+
+    def sym_inputs(self, inst, shape):
+        n = shape
+        inp = {"data": [sym(inst["T"], f"d{i}") if i < 4 else I(inst["T"], i) for i in range(n)]}
+        if inst["kind"] == "compact":
+            inp["select"] = [sym(inst["U"], f"s{i}") for i in range(n)]
+        if inst["kind"] == "nonzero_nullable":
+            inp["present"] = [sym("u8", f"p{i}") for i in range(nbytes(n))]
+        return inp, []
+
+    def op_fields(self, ctx, inst):
+        if inst["kind"] == "compact":
+            return {"data": bufref(ctx, 0), "select": bufref(ctx, 1), "compacted": bufref(ctx, 2)}
+        return {"data": bufref(ctx, 0), "compacted": bufref(ctx, 2)}
+
+    def buffers(self, inst, shape, inp):
+        b = Buffers()
+        if inst["kind"] == "nonzero_nullable":
+            b.nullable(0, inp["data"], inst["T"], inp["present"])
+        else:
+            b.vec(0, inp["data"], inst["T"])
+        if inst["kind"] == "compact":
+            b.vec(1, inp["select"], inst["U"])
+        return b
+
+    def view(self, inst, shape, value, state):
+        return {"err": self.result_is_err(value), "out": self.out_vec(state, 0)}
+
+    def sel(self, inst, shape, inp):
+        T = inst["T"]
+        if inst["kind"] == "compact":
+            return [binop("Gt", s, I(inst["U"], 0)) for s in inp["select"]]
+        if inst["kind"] == "nonzero":
+            return [binop("Gt", d, I(T, 0)) for d in inp["data"]]
+        return [band(bit(inp["present"], i), binop("Gt", d, I(T, 0))) for i, d in enumerate(inp["data"])]
+
+    def post(self, inst, shape, inp, value, state=None):
+        v = self.view(inst, shape, value, state) if state is not None else value
+        return [("never fails", B(not v["err"]))] + selected_rows_post(self.sel(inst, shape, inp), inp["data"], v["out"], "slot")
+
+    def random_inputs(self, rng, inst, shape):
+        inp, _ = self.sym_inputs(inst, shape)
+        out = {}
+        for k, vs in inp.items():
+            out[k] = [x if x.concrete else I(x.ty, rng.choice([0, 0, 1, 2, rnd_int(rng, x.ty)]) if k != "present" else rng.randint(0, 255)) for x in vs]
+        return out
+
+    def native(self, inst, shape, inp):
+        if inp is None:
+            return (inst["nat"], [])
+        t = [fmt_ints(inp["data"])]
+        if inst["kind"] == "compact":
+            t.append(fmt_ints(inp["select"]))
+        if inst["kind"] == "nonzero_nullable":
+            t.append(fmt_ints(inp["present"]))
+        return (inst["nat"], t)
+
+    def parse_native(self, inst, shape, toks):
+        return {"err": toks[0] == "err", "out": parse_ints(toks[1], inst["T"])}
+
+
+class NonzeroIndicesSpec(OpExecSpec):
+    """NonzeroIndices<T,U> / NonzeroNonnullIndices<T,U>: the (offset-shifted) positions of the groups that exist, ascending;
+    the operator's running offset advances by the input length"""
+
+    def instantiations(self, tier):
+        return [{"kind": "plain", "T": "u8", "U": "i64", "nat": "op_nonzero_indices_u8_i64"},
+                {"kind": "nonnull", "T": "u32", "U": "i64", "nat": "op_nonzero_nonnull_indices_u32_i64"}]
+
+    def op_type(self, inst):
+        return ("NonzeroIndices" if inst["kind"] == "plain" else "NonzeroNonnullIndices") + f"<{inst['T']}, {inst['U']}>"
+
+    def shapes(self, tier, inst):
+        return [(0, 0), (3, 0), (2, 5)] if tier == "quick" else [(0, 0), (1, 0), (3, 0), (2, 5), (4, 1), (9, 0)]
+
+    def sym_inputs(self, inst, shape):
+        n, off = shape
+        inp = {"in": [sym(inst["T"], f"e{i}") if i < 4 else I(inst["T"], i % 2) for i in range(n)]}
+        if inst["kind"] == "nonnull":
+            inp["present"] = [sym("u8", f"p{i}") for i in range(nbytes(n))]
+        return inp, []
+
+    def op_fields(self, ctx, inst):
+        return {"input": bufref(ctx, 0), "output": bufref(ctx, 1), "offset": I("usize", self._off)}
+
+    def explore(self, ctx, ex, fn, inst, shape, inp, pre):
+        self._off = shape[1]
+        return OpExecSpec.explore(self, ctx, ex, fn, inst, shape, inp, pre)
+
+    def buffers(self, inst, shape, inp):
+        b = Buffers()
+        if inst["kind"] == "nonnull":
+            b.nullable(0, inp["in"], inst["T"], inp["present"])
+        else:
+            b.vec(0, inp["in"], inst["T"])
+        b.vec(1, [], inst["U"])
+        return b
+
+    def view(self, inst, shape, value, state):
+        op = state.env["op"].v
+        offs = [f for f in op.fields if isinstance(f, I)]
+        return {"err": self.result_is_err(value), "out": self.out_vec(state, 1), "offset": offs[0] if offs else None}
+
+    def post(self, inst, shape, inp, value, state=None):
+        v = self.view(inst, shape, value, state) if state is not None else value
+        n, off = shape
+        T = inst["T"]
+        sel = [binop("Gt", e, I(T, 0)) for e in inp["in"]]
+        if inst["kind"] == "nonnull":
+            sel = [band(s, bit(inp["present"], i)) for i, s in enumerate(sel)]
+        idx = [I(inst["U"], off + i) for i in range(n)]
+        conds = [("never fails", B(not v["err"]))] + selected_rows_post(sel, idx, v["out"], "position")
+        conds.append(("the running offset advances by the input length", binop("Eq", v["offset"], I("usize", off + n)) if v["offset"] is not None else B(False)))
+        return conds
+
+    def random_inputs(self, rng, inst, shape):
+        inp, _ = self.sym_inputs(inst, shape)
+        return {k: [x if x.concrete else I(x.ty, rng.choice([0, 0, 1, 3]) if k != "present" else rng.randint(0, 255)) for x in vs] for k, vs in inp.items()}
+
+    def native(self, inst, shape, inp):
+        if inp is None:
+            return (inst["nat"], [])
+        t = [fmt_ints(inp["in"]), shape[1]]
+        if inst["kind"] == "nonnull":
+            t.append(fmt_ints(inp["present"]))
+        return (inst["nat"], t)
+
+    def parse_native(self, inst, shape, toks):
+        return {"err": toks[0] == "err", "out": parse_ints(toks[1], inst["U"]), "offset": I("usize", int(toks[2]))}
